@@ -125,6 +125,17 @@ class FetcherEval:
             b[0] = self.binding(tuple(oids[0]), self.val("v0"))
             b[m - 1] = self.binding(tuple(oids[(m - 1) % n]), self.marker())
             yield f"binding 0 does not advance and endOfMibView at position {m - 1}", b, m - 1, 0
+        # an echoed OID is no progress whatever value it carries (noSuchObject / noSuchInstance exception values included)
+        for p in range(min(m, n)):
+            for cls_name in ("NoSuchInstance", "NoSuchObject"):
+                kls = self.ctx.u.classes.get(f"puresnmp.pdu:{cls_name}") or self.ctx.u.classes.get(f"puresnmp.types:{cls_name}")
+                if kls is None:
+                    continue
+                b = advancing()
+                inst = Instance(kls, [], {})
+                inst.attrs.update(value=None, pyvalue=None)
+                b[p] = self.binding(tuple(oids[p]), inst)
+                yield f"binding {p} echoes the requested OID with a {cls_name} value", b, None, p
 
     # ------------------------------------------------------------ multigetnext
     def multigetnext(self) -> Optional[List[Verdict]]:
@@ -141,6 +152,15 @@ class FetcherEval:
                     self.uneval["multigetnext"] = str(val)
                     return None
                 out.append((kind == "raise" and self.exc_is(val, self.snmp_error), f"multigetnext: {n} requested, {m} binding(s) in the response -> refused with SnmpError", f"{kind}: {val!r}"[:200]))
+            if n >= 2:
+                for m, at in ((n + 1, 1), (n - 1, 0)):
+                    b = [self.binding(tuple(oids[k % n]) + (k + 1,), self.val(f"v{k}")) for k in range(m)]
+                    b[at] = self.binding(tuple(oids[at % n]), self.marker())
+                    kind, val = self.call(self.evaluator(b, []), meth, [self.me(), list(oids)])
+                    if kind == "uneval":
+                        self.uneval["multigetnext"] = str(val)
+                        return None
+                    out.append((kind == "raise" and self.exc_is(val, self.snmp_error), f"multigetnext: {n} requested, {m} binding(s) one of which is an endOfMibView -> refused with SnmpError (the count check does not depend on what the bindings hold)", f"{kind}: {val!r}"[:200]))
             for label, b, marker_at, stuck_at in self.column_responses(oids, 1):
                 requests: List[Any] = []
                 kind, val = self.call(self.evaluator(b, requests), meth, [self.me(), list(oids)])
